@@ -1261,6 +1261,17 @@ impl TransactionalMemory {
         Ok(state.latest_slot().transaction_id)
     }
 
+    // The id of the last committed transaction together with its data root, read under one lock:
+    // a reader must register exactly the snapshot it is going to read. With an id older than
+    // the root, the pages a non-durable commit frees right away would not be protected.
+    pub(crate) fn get_last_committed_transaction_id_and_data_root(
+        &self,
+    ) -> Result<(TransactionId, Option<BtreeHeader>)> {
+        let state = self.state.lock()?;
+        let slot = state.latest_slot();
+        Ok((slot.transaction_id, slot.user_root))
+    }
+
     pub(crate) fn get_last_durable_transaction_id(&self) -> Result<TransactionId> {
         let state = self.state.lock()?;
         Ok(state.header.primary_slot().transaction_id)
